@@ -286,6 +286,9 @@ class Reader:
         """
         if not self.is_open:
             raise IOError("Reader not open; call `open` before `read`")
+        if isinstance(nsel, np.integer):
+            # mtscomp only recognises python integers and returns nothing for numpy ones
+            nsel = int(nsel)
         if self.is_mtscomp and isinstance(nsel, slice) and nsel.step is not None and nsel.step < 0:
             # mtscomp returns nothing for negative steps: read the same samples forward and flip them
             ind = range(*nsel.indices(self.ns))
